@@ -7,6 +7,7 @@ import (
 	"fmt"
 	"hash/crc32"
 	"io"
+	"math"
 
 	"github.com/klauspost/compress/zstd"
 	"github.com/pierrec/lz4/v4"
@@ -189,6 +190,11 @@ func (l *Lexer) Next(p []byte) (TokenType, []byte, error) {
 				continue
 			}
 		case OpAttachment:
+			if recordLen > math.MaxInt64 {
+				// a length that does not fit the signed arithmetic of readers and seekers
+				// would turn the skip below into a backwards seek
+				return TokenError, nil, fmt.Errorf("attachment record length %d: %w", recordLen, ErrLengthOutOfRange)
+			}
 			limitReader := &io.LimitedReader{
 				R: l.reader,
 				N: int64(recordLen),
